@@ -20,7 +20,7 @@ ASSUME Dev \subseteq DevNames
 \* kind: kty, crv ("" for oct/RSA), bits (oct and RSA; 0 for curves)
 Kind(kty, crv, bits) == [kty |-> kty, crv |-> crv, bits |-> bits]
 KeyKinds ==
-  {Kind("oct", "", b) : b \in {64, 128, 192, 256, 384, 512}} \cup {Kind("RSA", "", b) : b \in {1024, 2048}}
+  {Kind("oct", "", b) : b \in {64, 128, 192, 256, 384, 512}} \cup {Kind("RSA", "", b) : b \in {1024, 2047, 2048}}   \* 2047: the modulus fills 256 octets but is one bit short
   \cup {Kind("EC", c, 0) : c \in EcCurves} \cup {Kind("OKP", c, 0) : c \in OkpCurves}
 \* use: "" (not declared) / sig / enc ; ops: none (not declared) / has (declares the needed operation) / lacks
 Key(kind, priv, use, ops) == [kind |-> kind, priv |-> priv, use |-> use, ops |-> ops]
